@@ -33,17 +33,22 @@ impl<'a, T> Iter<'a, T> {
             return self.view.data.first();
         };
 
-        self.coords[axis] += 1;
-        if self.coords[axis] < self.view.shape[axis] {
-            self.offset += self.view.strides[axis];
-            self.index += 1;
-            self.view.data.get(self.offset)
-        } else if axis > 0 {
-            self.coords[axis] = 0;
-            self.offset -= self.backstride(axis);
-            self.impl_next_rec(axis - 1)
-        } else {
-            None
+        // Carry like an odometer, from the last axis towards the first; a loop rather than
+        // recursion, since the depth would otherwise be the number of dimensions
+        let mut axis = axis;
+        loop {
+            self.coords[axis] += 1;
+            if self.coords[axis] < self.view.shape[axis] {
+                self.offset += self.view.strides[axis];
+                self.index += 1;
+                return self.view.data.get(self.offset);
+            } else if axis > 0 {
+                self.coords[axis] = 0;
+                self.offset -= self.backstride(axis);
+                axis -= 1;
+            } else {
+                return None;
+            }
         }
     }
 }
